@@ -109,7 +109,7 @@ pub fn gen_op(r: &mut Rng, kind: OpKind) -> Op {
             vec![li, n, r.pick(&[0u32, 1, 2]), r.pick(&[0u32, 1]), 0]
         }
         DeReal => vec![len_idx(r), 1, r.below(3), 0, 0],
-        WideOp => vec![r.below(9), r.below(7), if r.chance(1, 2) { 0 } else { r.below(3) }, r.below(1 << 20), r.below(12)],
+        WideOp => vec![r.below(crate::g_wide::N_WIDE), r.below(7), if r.chance(1, 2) { 0 } else { r.below(3) }, r.below(1 << 20), r.below(12)],
     };
     Op::new(kind, &args)
 }
